@@ -13,7 +13,15 @@
    Data is abstract: only identities (indices into the lists of the state).
    [drain cfg = true]  : `delete` keeps dequeuing its mailbox while it waits for
                          the topic (the fixed code);
-   [drain cfg = false] : the original code. *)
+   [drain cfg = false] : the original code.
+   [guard cfg = true]  : commit "fix: do not attach a subscription that is already being
+                         deleted": the subscription actor raises a shared flag `detached` at
+                         the very start of `delete` (where it sets `deleted`, before it sends
+                         RemoveSubscription), and `TopicActor::attach_subscription` answers
+                         Ok without inserting a subscription whose flag is raised.  In the
+                         model the flag is [s_deleted] (set when the actor dequeues the Delete
+                         and enters [SDel]);
+   [guard cfg = false] : the code before that commit. *)
 
 From Coq Require Import List NArith Arith Bool Lia.
 Import ListNotations.
@@ -24,7 +32,8 @@ Set Implicit Arguments.
 (* Configuration                                                        *)
 
 Record config := { K : nat;        (* capacity of every mailbox (16 in the code) *)
-                   drain : bool }. (* (D) drains its mailbox while waiting        *)
+                   drain : bool;   (* (D) drains its mailbox while waiting        *)
+                   guard : bool }. (* Attach skips a subscription being deleted   *)
 
 (* ------------------------------------------------------------------ *)
 (* Requests                                                             *)
@@ -287,7 +296,15 @@ Definition answer_remove (s : nat) (ss : list sub) : list sub :=
   | None => ss
   end.
 
-Definition step_tdeq (st : state) (t : nat) : option state :=
+(* the `detached` flag of subscription s, as read by the topic actor *)
+Definition sub_deleted (st : state) (s : nat) : bool :=
+  match nth_error (subs st) s with Some sb => s_deleted sb | None => false end.
+
+(* the topic refuses to insert s (it still answers the attach request with Ok) *)
+Definition attach_blocked (cfg : config) (st : state) (s : nat) : bool :=
+  guard cfg && sub_deleted st s.
+
+Definition step_tdeq (cfg : config) (st : state) (t : nat) : option state :=
   match nth_error (topics st) t with
   | Some tp =>
       match t_phase tp with
@@ -310,7 +327,8 @@ Definition step_tdeq (st : state) (t : nat) : option state :=
                       helpers := helpers st |}
           | TAttach s h :: rest =>
               Some {| topics := set t {| t_mbox := rest; t_phase := TIdle;
-                                         t_atts := if mem s (t_atts tp) then t_atts tp
+                                         t_atts := if attach_blocked cfg st s then t_atts tp
+                                                   else if mem s (t_atts tp) then t_atts tp
                                                    else s :: t_atts tp;
                                          t_alive := t_alive tp |} (topics st);
                       subs := subs st;
@@ -492,7 +510,7 @@ Definition step (cfg : config) (st : state) (l : label) : option state :=
   | LDrop c => step_drop st c
   | LCSend c => step_csend cfg st c
   | LHSend h => step_hsend cfg st h
-  | LTDeq t => step_tdeq st t
+  | LTDeq t => step_tdeq cfg st t
   | LPost t s => step_post cfg st t s
   | LTFinish t => step_tfinish st t
   | LSDeq s => step_sdeq cfg st s
